@@ -1079,9 +1079,21 @@ class Normaliser:
                 continue
             if any(isinstance(x, ast.Name) and x.id == nm and id(x) not in inside for x in ast.walk(self.fn)):
                 continue
-            if self.block_local(loop, nm):
+            if self.block_local(loop, nm) or (self.assigned_first(loop.body, nm)
+                                               and not any(isinstance(x, ast.Name) and x.id == nm for st_ in getattr(loop, "orelse", []) for x in ast.walk(st_))
+                                               and not (isinstance(loop, ast.While) and any(isinstance(x, ast.Name) and x.id == nm for x in ast.walk(loop.test)))):
                 out.add(nm)
         return out
+
+    @staticmethod
+    def assigned_first(body, nm) -> bool:
+        """every pass of the loop body starts by binding `nm` (a plain top-level assignment whose value does not mention it) before anything looks at it"""
+        for st in body:
+            if isinstance(st, ast.Assign) and len(st.targets) == 1 and isinstance(st.targets[0], ast.Name) and st.targets[0].id == nm:
+                return not any(isinstance(x, ast.Name) and x.id == nm for x in ast.walk(st.value))
+            if any(isinstance(x, ast.Name) and x.id == nm for x in ast.walk(st)):
+                return False
+        return False
 
     @staticmethod
     def block_local(holder, nm) -> bool:
@@ -1318,6 +1330,21 @@ class Normaliser:
                 continue
             raise Unsupported(type(s).__name__)
 
+    def single_arm(self, arm, rest, env, cont):
+        """an if of which only one arm exists on this path: the arm, then what follows"""
+        if self.may_leave(arm):
+            e, _ = self.block(arm, env, (rest,) + tuple(cont))
+            return e, env, True
+        live = self.live_after(rest, cont)
+        self.sunk = False
+        e, env2 = self.with_live(live, lambda: self.block(arm, dict(env), ()))
+        if self.sunk:
+            # an if inside the arm continued what follows it inside its own arms: the environment after the arm is not known here
+            self.sunk = False
+            e, _ = self.block(arm, env, (rest,) + tuple(cont))
+            return e, env, True
+        return e, env2, False
+
     def do_if(self, test, body, orelse, rest, env, cont):
         """-> (effects, env after, finished?)   finished: the continuation has been consumed inside the arms"""
         test = self.apply_decided(test)
@@ -1340,17 +1367,18 @@ class Normaliser:
                 er, envb = self.under(key, False, lambda: self.block(rest, envb, cont))
                 eb = eb + er
             return self.mk_if(t, ea, eb), env, True
+        if isinstance(test, ast.Constant) or (isinstance(test, ast.UnaryOp) and isinstance(test.op, ast.Not) and isinstance(test.operand, ast.Constant)):
+            # a literal test: only one arm exists
+            val = bool(test.value) if isinstance(test, ast.Constant) else not bool(test.operand.value)
+            arm = body if val else orelse
+            return self.single_arm(arm, rest, env, cont)
         pos, t = self.test(test, {})
         a_st, b_st = (body, orelse) if pos else (orelse, body)
         tkey, kpos = self.tkey(test)
         if self.known(tkey) is not None:
             # already decided on this path: only one arm exists
             arm = a_st if self.known(tkey) else b_st
-            if self.may_leave(arm):
-                e, _ = self.block(arm, env, (rest,) + tuple(cont))
-                return e, env, True
-            e, env2 = self.block(arm, env, ())
-            return e, env2, False
+            return self.single_arm(arm, rest, env, cont)
         if self.may_leave(a_st) or self.may_leave(b_st):
             ea, _ = self.under(tkey, True, lambda: self.block(a_st, dict(env), (rest,) + tuple(cont)))
             eb, _ = self.under(tkey, False, lambda: self.block(b_st, dict(env), (rest,) + tuple(cont)))
@@ -1527,6 +1555,20 @@ class _Prepass(ast.NodeTransformer):
                 out.append(ast.fix_missing_locations(ast.copy_location(ast.If(test=ast.UnaryOp(op=ast.Not(), operand=anyc), body=s.orelse, orelse=[]), s)))
                 i += 1
                 continue
+            # for t in it: if c: S; break        (S does not look at t, nothing else leaves the loop)     ->   if any(c for t in it): S
+            if isinstance(s, ast.For) and not s.orelse and len(s.body) == 1 and isinstance(s.body[0], ast.If) and not s.body[0].orelse \
+                    and len(s.body[0].body) >= 2 and isinstance(s.body[0].body[-1], ast.Break) and not (_bound_names(s.target) & self.leaking):
+                inner = s.body[0]
+                acts = inner.body[:-1]
+                tnames = _bound_names(s.target)
+                clean = not any(isinstance(x, (ast.Break, ast.Continue, ast.Return, ast.Yield, ast.YieldFrom)) for st_ in acts for x in ast.walk(st_)) \
+                    and not any(isinstance(x, ast.Name) and x.id in tnames for st_ in acts for x in ast.walk(st_))
+                if clean:
+                    gen = ast.GeneratorExp(elt=inner.test, generators=[ast.comprehension(target=s.target, iter=s.iter, ifs=[], is_async=0)])
+                    anyc = ast.Call(func=ast.Name(id="any", ctx=ast.Load()), args=[gen], keywords=[])
+                    out.append(ast.fix_missing_locations(ast.copy_location(ast.If(test=anyc, body=acts, orelse=[]), s)))
+                    i += 1
+                    continue
             # for t in it: L.append(e)   ->  L.extend(e for t in it)      (L.extend(it) when e is t)
             if isinstance(s, ast.For):
                 c = _loop_as_extend(s)
